@@ -34,6 +34,9 @@ def isPrefixOfB : Bytes → Bytes → Bool
   | _ :: _, [] => false
   | a :: as, b :: bs => a == b && isPrefixOfB as bs
 
+/-- `strings.TrimSuffix` -/
+def trimSuffixB (s suf : Bytes) : Bytes := if suf.isSuffixOf s then s.take (s.length - suf.length) else s
+
 def bytesOfString (s : String) : Bytes := s.toUTF8.toList.map (·.toNat)
 
 end Pgs
